@@ -168,6 +168,7 @@ func cmdCheck(args []string) int {
 	var assumedContracts []string
 	trustedUsed := map[string]bool{}
 	unknownCalls := map[string]bool{}
+	modelNotes := map[string]bool{}
 	for len(queue) > 0 {
 		k := queue[0]
 		queue = queue[1:]
@@ -214,6 +215,11 @@ func cmdCheck(args []string) int {
 		}
 		for u := range c.unknown {
 			unknownCalls[shortFn(k)+" -> "+u] = true
+		}
+		for t := range c.trusted {
+			if _, isContract := eng.contracts[t]; !isContract && eng.ifaceContracts[t] == nil && eng.functypes[t] == nil {
+				modelNotes[t] = true
+			}
 		}
 	}
 	// interface implementations (behavioural subtyping) for interfaces tagged with the property
@@ -327,6 +333,9 @@ func cmdCheck(args []string) int {
 	var trusted []string
 	for u := range trustedUsed {
 		trusted = append(trusted, "assumed contract: "+u)
+	}
+	for n := range modelNotes {
+		trusted = append(trusted, n)
 	}
 	sort.Strings(trusted)
 	sort.Strings(assumedContracts)
